@@ -210,9 +210,9 @@ pub fn cmd_parrec(args: &crate::core::Args) -> i32 {
         }
         let shared = Arc::new(Shared { mode: AtomicUsize::new(0), tick: AtomicU64::new(seed.wrapping_mul(0x2545F4914F6CDD1D) ^ (ci as u64) << 24), arrivals });
         let k = Knobs { deep: 0, variant: 0 };
-        let reference = match run_once(n, pat, dis, threads, minper, false, &shared, k, None) {
-            Ok(r) => r,
-            Err(_) => continue,
+        let reference = match std::panic::catch_unwind(std::panic::AssertUnwindSafe(|| run_once(n, pat, dis, threads, minper, false, &shared, k, None))) {
+            Ok(Ok(r)) => r,
+            _ => continue,
         };
         let top = (0..n).map(|i| salience(i, n, pat)).max().unwrap_or(0);
         let enabled = |i: usize| match dis { 1 => (i + 1) % 5 != 0, 2 => salience(i, n, pat) != top || pat == 1 && i % 2 == 0, _ => true };
@@ -233,9 +233,10 @@ pub fn cmd_parrec(args: &crate::core::Args) -> i32 {
                 writeln!(f, "{}", rec("run", 0, 0, false, 0, 0, false, 0)).unwrap();
             }
             events_start();
-            let res = run_once(n, pat, dis, threads, minper, true, &shared, k, None);
+            // a panic inside execute_parallel is data: the run is recorded as an "error" event, which no model step explains
+            let res = std::panic::catch_unwind(std::panic::AssertUnwindSafe(|| run_once(n, pat, dis, threads, minper, true, &shared, k, None)));
             let evs = events_take();
-            if res.is_err() {
+            if !matches!(res, Ok(Ok(_))) {
                 writeln!(f, "{}", rec("error", 0, 0, false, 0, 0, false, 0)).unwrap();
                 continue;
             }
